@@ -117,7 +117,7 @@ Fixpoint p_expr (fuel d pr : nat) (ts : list token) {struct fuel} : res expr :=
   | S f =>
       match d with
       | 0 => Err ETooDeep
-      | S d' => do (e, r) <- p_primary f d' ts; p_loop f d' pr e r
+      | S d' => do (e, r) <- p_primary f d' ts; p_loop f d' d' pr e r
       end
   end
 
@@ -155,8 +155,10 @@ with p_primary (fuel d : nat) (ts : list token) {struct fuel} : res expr :=
       end
   end
 
-(* the while-loop of _expression: e = the expression read so far *)
-with p_loop (fuel d pr : nat) (e : expr) (ts : list token) {struct fuel} : res expr :=
+(* the while-loop of _expression: e = the expression read so far; c = how many more operators the loop may apply
+   (every operator makes e the first operand of a new node, i.e. nests it one level deeper:
+   `if (depth + ++chain > max_depth) error("nesting too deep..")`; c starts as the budget of the frame) *)
+with p_loop (fuel d c pr : nat) (e : expr) (ts : list token) {struct fuel} : res expr :=
   match fuel with
   | 0 => OutOfFuel
   | S f =>
@@ -165,11 +167,21 @@ with p_loop (fuel d pr : nat) (e : expr) (ts : list token) {struct fuel} : res e
       | t :: r =>
           match bin_of t with
           | Some (o, lv, rp) =>
-              if pr <=? lv then do (x, r1) <- p_expr f d rp r; p_loop f d pr (EBin o e x) r1 else Ok e ts
+              if pr <=? lv then
+                match c with
+                | 0 => Err ETooDeep
+                | S c' => do (x, r1) <- p_expr f d rp r; p_loop f d c' pr (EBin o e x) r1
+                end
+              else Ok e ts
           | None =>
               match nary_of t with
               | Some (o, lv, rp) =>
-                  if pr <=? lv then do (xs, r1) <- p_collect f d o rp ts; p_loop f d pr (ENary o (e :: xs)) r1 else Ok e ts
+                  if pr <=? lv then
+                    match c with
+                    | 0 => Err ETooDeep
+                    | S c' => do (xs, r1) <- p_collect f d o rp ts; p_loop f d c' pr (ENary o (e :: xs)) r1
+                    end
+                  else Ok e ts
               | None => Ok e ts
               end
           end
